@@ -410,6 +410,7 @@ func concScenarios(th bool) []cscenario {
 }
 
 func runConcurrent(t *testing.T, r *rep.R) {
+	gate.ReportHangs(r)
 	scs := concScenarios(r.Thorough())
 	var exec, pts atomic.Int64
 	enum.ParFor(len(scs), r.Expired, func(i int) {
